@@ -24,6 +24,14 @@ def gen_header(rng, nloc=None, calllen=None, call_chars=CALL_CHARS, trailing=b""
     if nloc is None:
         nloc = rng.choice([1, 1, 2, 3, 5, 8, 13, 21, 31, rng.range(1, 31)])
     locs = b"".join(b"-" + digits(rng, 6) for _ in range(nloc))
+    if rng.chance(1, 14):
+        # around the national-location rule (exactly ONE location code, 000000, with a national event code)
+        zero, real = b"000000", digits(rng, 6)
+        pats = {1: [[zero]], 2: [[zero, zero], [zero, real], [real, zero]], 3: [[zero, zero, zero], [real, zero, real]]}
+        if nloc in pats:
+            locs = b"".join(b"-" + l for l in rng.choice(pats[nloc]))
+            if rng.chance(2, 3):
+                evt = rng.choice([b"EAN", b"NIC", b"NAT", b"NPT", b"NST"])
     tttt = digits(rng, 4)
     jjj = b"%03d" % rng.range(1, 366) + b"%02d" % rng.below(24) + b"%02d" % rng.below(60)
     special_call = None
